@@ -15,6 +15,7 @@ func TestReplay_Front(t *testing.T) {
 	frontReplay("TestProp_C15_Publish", runC15)
 	frontReplay("TestProp_C18_Reload", runC18)
 	frontReplay("TestProp_C01_ProcessCrash", runC01Proc)
+	frontReplay("TestProp_C01_FanoutFault", runC01Fault)
 	frontReplay("TestProp_C03_Concurrent", runC03C)
 	frontReplay("TestProp_C14_HTTP", runC14)
 	frontReplay("TestProp_C18_FileCrash", runC18File)
